@@ -46,4 +46,53 @@ Section Conv.
     | S m => let '(a, b) := cheb_pair kindU m in (b, psub (scale O two (pshift b)) a)
     end.
   Definition chebP (kindU : bool) (n : nat) : list D := fst (cheb_pair kindU n).
+
+  (* ---- completion.cheb2poly / poly2cheb with the tables defined by their recurrences *)
+  (* cheb2poly: pcoefs[:deg+1] += ccoef * basis(deg), deg = 0, 1, ... *)
+  Fixpoint c2p_aux (kindU : bool) (cs : list D) (k : nat) : list D :=
+    match cs with
+    | [] => []
+    | c :: cs' => ladd O (scale O c (chebP kindU k)) (c2p_aux kindU cs' (S k))
+    end.
+  Definition pad_to (n : nat) (l : list D) : list D := l ++ repeat (d0 O) (n - length l).
+  Definition c2p (kindU : bool) (cs : list D) : list D := pad_to (length cs) (c2p_aux kindU cs 0).
+
+  (* 1 / (leading coefficient of the degree-n basis polynomial): T_0: 1, T_n: 2^-(n-1); U_n: 2^-n *)
+  Fixpoint hpow (n : nat) : D := match n with 0%nat => d1 O | S m => dmul O half (hpow m) end.
+  Definition inv_lead (kindU : bool) (n : nat) : D := if kindU then hpow n else hpow (Nat.pred n).
+
+  (* poly2cheb: from the top degree down, ccoefs[deg] = p[deg] / lead; p -= ccoefs[deg] * basis *)
+  Fixpoint p2c_aux (kindU : bool) (fuel : nat) (p : list D) : list D :=   (* returns coefficients for degrees < fuel, low to high *)
+    match fuel with
+    | 0%nat => []
+    | S deg =>
+        let c := dmul O (nth deg p (d0 O)) (inv_lead kindU deg) in
+        let p' := psub p (scale O c (chebP kindU deg)) in
+        p2c_aux kindU deg p' ++ [c]
+    end.
+  Definition p2c (kindU : bool) (p : list D) : list D := p2c_aux kindU (length p) p.
+
+  (* ---- angle_sequence.poly2laurent.  numpy's poly2cheb trims trailing exact zeros first.
+     big c  <->  |c| > 1e-8  (supplied by the instance).  None = AngleFindingError. *)
+  Variable big : D -> bool.
+  Fixpoint trim_rev (l : list D) : list D :=       (* on the reversed list: drop leading exact zeros, keep one element *)
+    match l with
+    | [] => []
+    | [x] => [x]
+    | x :: l' => if isz0 x then trim_rev l' else l
+    end.
+  Definition trimz (l : list D) : list D := rev (trim_rev (rev l)).
+  Definition poly2laurent (p : list D) : option (list D) :=
+    let cc := p2c false (trimz p) in
+    let is_even := existsb big (evens cc) in
+    let is_odd := existsb big (odds cc) in
+    if is_even && is_odd then None
+    else if is_odd then
+      let l := map (dmul O half) (odds cc) in Some (rev l ++ l)
+    else
+      let l := map (dmul O half) (evens cc) in
+      match l with
+      | [] => Some []
+      | l0 :: lt => Some (rev lt ++ [dmul O two l0] ++ lt)
+      end.
 End Conv.
